@@ -30,6 +30,9 @@ CLAIMED = {
  'C10': ("static analysis: type-switch exhaustiveness and agreement of the two condition walkers and of the dictionary lookup over all tag-filter kinds, must-facts of AND/OR/NOT handling, union rule (mutable, immutable and persisted store on every success path of every index read), lock-hold of the cache purge, accumulator reset between emits",
          "Decides structural conditions of index-based filtering for every index state: both condition walkers handle the same full set of condition kinds, the dictionary lookup handles every TagFilter implementer; AND intersects, other accepted operators union, unknown operators are rejected, NOT subtracts from the key's universe; every index read "
          "consults mutable, immutable and persisted data on every success path and memory is read under the store lock; the bucket cache is purged in the hold that installs the new snapshot; the forward merger's accumulator is reset between emitted containers. Result-set equality, trie/regex matching and group-by values are not decided."),
+ 'C11': ("static analysis: union rule for a family read (mutable, immutable, every selected file; error propagation), typestate of the file snapshot, acquire/complete bracketing vs flush wait, compare-and-replace (clamp) idiom check for range unions, plus the block-writer anchor, footer layout and field-type rules shared with C03",
+         "Decides structural conditions of read/write/flush agreement in the storage path: a family read returns memory and file result sets, reads both memory databases under the family mutex and every reader selected for the metric, propagates errors and closes its file snapshot exactly when no result set owns it; writes are bracketed by acquire/complete and a flush waits for them; "
+         "range unions replace a bound only by the value it was compared with; block writer anchors, block footer and field type tables as in C03. All numeric parts of query evaluation are not decided."),
  'C12': ("static analysis: exactly-once path rules on the response counters, must-fact guards of the not-found tolerance and of completion, guarded-by for writes, lock-hold atomicity of the leaf's single reduce aggregator, provenance of the receiver index",
          "Decides the accounting and merge-object structure that order/placement independence rests on: one decrement per handled response on every path and one expectation+tolerance per target, under the mutex; a not-found answer ignored only while the tolerance counter (not the response counter) is positive, every other error recorded, "
          "only checked answers merged; done channel closed once, only when nothing is outstanding or an error is set; counters and aggregator written under the mutex; on a leaf the reduce aggregator is created only when absent, in the same hold in which it is used, and read from the shared field; receiver = hash(tags) mod receivers. "
